@@ -1,7 +1,7 @@
 (* C03 — every emitted tag mirrors the bytes at its reported offset; tags tile the stream.  Statements only
    (proofs in Proofs/PureProofs.v and Proofs/Tiling.v). *)
 From Ebml Require Import Base Tools Spec Reader Pure Proofs.Tactics Proofs.ReaderIO Proofs.Refine Proofs.PureProofs
-  Proofs.RollUp Proofs.Nesting Proofs.BufferSim Proofs.Tiling Proofs.Extents Proofs.AuditNesting Proofs.BufferedNesting.
+  Proofs.RollUp Proofs.Nesting Proofs.BufferSim Proofs.Tiling Proofs.TilingSeg Proofs.Extents Proofs.AuditNesting Proofs.BufferedNesting.
 
 (* One tag (every configuration, every parser state, every remaining input): if reading a tag succeeds then
    - the offset recorded for the item is the cursor position before the tag,
@@ -43,7 +43,8 @@ Proof. exact buffered_refines_pure. Qed.
      (OErr, ORecOk, ORecErr, OPanic, OFuel).  The item-limit outcome OLimit of a drain does NOT end the prefix ([clean OLimit = true]):
      it carries no item, so the items of the prefix are the same with or without it.
    An error consumes the bytes of the offending element without yielding an item and try_recover skips bytes on purpose, so
-   the tiling is stated up to that point; after it the offsets still mirror the bytes tag by tag (C03_tag_mirrors_bytes). *)
+   C03_run_tiles / C03_drain_tiles state the tiling up to that point; what follows errors and recoveries is covered by the
+   SEGMENTED tiling of whole runs at the end of this file (C03_run_tiles_segmented, C03_run_tiles_segmented_any). *)
 
 (* the per-tag statement in this vocabulary: a successful read consumes exactly one segment, which the item mirrors, and the
    item reports the offset at which the segment starts *)
@@ -207,9 +208,9 @@ Theorem C03_buffered_tiles_and_offsets_pinned : forall c input,
 Proof. exact buffered_clean_tiles_offsets_pinned. Qed.
 
 (* PARTIAL: the run-level statements are proved for the abstract reader (and, by C03_buffered_same, for the buffered machine on
-   sources that never pause or fail).  The tiling is stated up to the first error / try_recover call of a run; what follows
-   an error is covered tag by tag (C03_tag_mirrors_bytes) and by the correspondence check with the independent re-decoder
-   (props/readcheck.py check_tiling).  For buffered masters the statement is for complete runs (no error) via the unrolling. *)
+   sources that never pause or fail).  With nothing buffered the tiling covers whole runs, errors and recoveries included
+   (segmented tiling, end of this file).  For buffered masters the statement is for complete runs (no error) via the
+   unrolling. *)
 
 Example C03_ex :
   let sp := [ {| e_id := 129; e_ty := DMaster; e_path := [] |}; {| e_id := 16643; e_ty := DMaster; e_path := [PId 129] |};
@@ -306,3 +307,152 @@ Example C03_ex_tiling :
     [(TStart 129, 0); (TStart 130, 2); (TElem 16641 (VU 5), 4)] /\
   chk_off [] (out_pairs (p_run c bad [RAll; RRecover; RAll])) = Some [].
 Proof. vm_compute. repeat split; reflexivity. Qed.
+
+(* ------------------------------------------------------------------ whole runs: segmented tiling (errors and recoveries included)
+   Vocabulary (Proofs/TilingSeg.v).
+   [Adv st st']: the remaining bytes of [st'] are a suffix of the remaining bytes of [st] and the cursor advanced by exactly the
+     number of bytes dropped: b_bytes st = d ++ b_bytes st' and b_off st' = b_off st + |d| for some d.
+   [stretches outs]: the outcomes of a run cut at the non-clean outcomes (OErr, ORecOk, ORecErr, OPanic, OFuel -- the same
+     [clean] as in [clean_prefix]; a non-clean outcome belongs to no stretch): the maximal clean stretches s_0 .. s_k in order.
+   [cuts outs]: the k non-clean outcomes in order; the i-th one separates s_(i-1) from s_i.
+   [SegTiles sp off bytes [l_0; ..; l_k] [g_1; ..; g_k]]: bytes = tile(l_0) ++ g_1 ++ tile(l_1) ++ .. ++ g_k ++ tile(l_k) ++ rest
+     for some [rest]; tile(l_i) is the concatenation of the segments mirrored by the items of l_i, which form a tiling in the sense
+     of [Tiles]: the first item of l_i reports the offset right after g_i ([off] for l_0), each next one the offset where the
+     previous segment ends.  So every item mirrors the bytes at its reported offset, stretches never overlap, offsets never go
+     backwards, and the only bytes not covered by an item (before the end of the last stretch) are the gaps g_i.
+   [rec_ok true outs]: no try_recover outcome (ORecOk / ORecErr) directly follows an End item or the item-limit outcome OLimit.
+     In exactly those two situations an item that was already read may still be waiting to be handed out; it is then handed out
+     AFTER the try_recover outcome although it lies BEFORE the skipped bytes (C03_run_tiles_segmented_counterexample). *)
+
+(* every successful or failed read of a tag, every next() and every try_recover() (nothing buffered for next(); any state, any
+   tolerance settings) leaves the remaining bytes a suffix of the previous remaining bytes and advances the cursor by exactly
+   the number of bytes dropped: no byte is ever read twice and the cursor never goes backwards *)
+Theorem C03_read_only_forward : forall c st, Adv st (fst (p_read_tag c st)).
+Proof. exact p_read_tag_adv. Qed.
+
+Theorem C03_next_only_forward : forall c st, c_buffered c = [] -> Adv st (fst (p_next c st)).
+Proof. exact p_next_adv. Qed.
+
+(* ... and try_recover leaves the queue of items waiting to be handed out untouched *)
+Theorem C03_recover_only_forward : forall c st,
+  Adv st (fst (p_try_recover c st)) /\ b_queue (fst (p_try_recover c st)) = b_queue st.
+Proof. exact p_try_recover_adv. Qed.
+
+(* a try_recover call that reports success without hitting a panic site or the recursion budget moved the cursor strictly
+   forward (at least one byte is skipped; cf. C14 / C05 "recovery moves forward") *)
+Theorem C03_recover_ok_skips : forall c st st1, p_try_recover c st = (st1, None) -> b_bad st1 = None -> b_off st < b_off st1.
+Proof. exact try_recover_ok_strict. Qed.
+
+(* the first stretch is the clean prefix of C03_run_tiles *)
+Theorem C03_stretches_head : forall outs, hd [] (stretches outs) = clean_prefix outs.
+Proof. exact stretches_head. Qed.
+
+(* Segmented tiling of a whole run.  Nothing buffered, any tolerance settings, every input, every sequence of next() /
+   try_recover() / drain operations in which try_recover is never called directly after an End item or an item-limit outcome was
+   yielded ([rec_ok true]; in particular every run that calls try_recover only directly after an error, after another
+   try_recover, after None, after a Start / element item, or first): cut the outcomes at the non-clean ones; then there are gaps
+   g_1 .. g_k, one per non-clean outcome, such that the non-End items of the clean stretches s_0 .. s_k tile the input with
+   exactly these gaps in between,  input = tile(s_0) ++ g_1 ++ tile(s_1) ++ .. ++ g_k ++ tile(s_k) ++ rest,  each stretch's items
+   reporting offsets that start exactly after the preceding gap (offset 0 for s_0); and the gap of a successful try_recover
+   (ORecOk) is not empty. *)
+Theorem C03_run_tiles_segmented : forall c input ops, c_buffered c = [] -> rec_ok true (p_run c input ops) = true ->
+  exists gaps, SegTiles (c_sp c) 0 input (map non_end_items (stretches (p_run c input ops))) gaps /\
+               Forall2 (fun o g => o = ORecOk -> g <> []) (cuts (p_run c input ops)) gaps.
+Proof. exact run_tiles_aligned. Qed.
+
+(* Without any discipline: nothing buffered, any tolerance settings, every input, every sequence of operations: the non-End items
+   of the run, followed by the non-End items [pend] the reader had already read but not yet handed out when the run ended, can
+   be cut into 1 + (number of non-clean outcomes) consecutive groups that tile the input with gaps only between groups.  So in
+   every run every non-End item mirrors the bytes at its reported offset, items never overlap, offsets never go backwards, and at
+   most one gap arises per non-clean outcome.  (The groups are the stretches of the items in the order they were READ; under
+   [rec_ok] this is the order of the outcomes, C03_run_tiles_segmented.) *)
+Theorem C03_run_tiles_segmented_any : forall c input ops, c_buffered c = [] ->
+  exists ss gaps pend, SegTiles (c_sp c) 0 input ss gaps /\ concat ss = non_end_items (p_run c input ops) ++ pend /\
+                       length ss = S (nclean (p_run c input ops)).
+Proof. exact run_tiles_segmented. Qed.
+
+(* one gap between any two consecutive stretches *)
+Theorem C03_segtiles_gaps : forall sp off bytes ss gaps, SegTiles sp off bytes ss gaps -> length ss = S (length gaps).
+Proof. exact SegTiles_length. Qed.
+
+(* Root(129) { Val(16641) = 5, Str(134) = invalid UTF-8, Val = 6, Val with size 9 (damaged), Val = 9 }.
+   next x5, try_recover, next x3: the invalid string is consumed by the failed read (gap of 3 bytes, offsets 6..8); the damaged
+   header is rejected without consuming anything (empty gap); try_recover then skips the 6 bytes at offsets 13..18. *)
+Definition C03_seg_sp : spec :=
+  [ {| e_id := 129; e_ty := DMaster; e_path := [] |}; {| e_id := 16641; e_ty := DUInt; e_path := [PId 129] |};
+    {| e_id := 134; e_ty := DUtf8; e_path := [PId 129] |} ].
+Definition C03_seg_cfg : cfg :=
+  {| c_sp := C03_seg_sp; c_allow_id := false; c_allow_hier := false; c_allow_over := false; c_max := Some 4000000000;
+     c_buffered := []; c_emit_eof := true |}.
+Definition C03_seg_doc : list N := [129; 149; 65; 1; 129; 5; 134; 129; 255; 65; 1; 129; 6; 65; 1; 137; 7; 7; 7; 65; 1; 129; 9].
+Definition C03_seg_ops : list rop := [RNext; RNext; RNext; RNext; RNext; RRecover; RNext; RNext; RNext].
+
+Example C03_ex_segmented :
+  let outs := p_run C03_seg_cfg C03_seg_doc C03_seg_ops in
+  outs = [OItem (TStart 129) 0; OItem (TElem 16641 (VU 5)) 2; OErr (RTagData 134 KUtf8); OItem (TElem 16641 (VU 6)) 9;
+          OErr (RInvalidTagData 13 16641); ORecOk; OItem (TElem 16641 (VU 9)) 19; OItem (TEnd 129) 0; ONone] /\
+  rec_ok true outs = true /\
+  cuts outs = [OErr (RTagData 134 KUtf8); OErr (RInvalidTagData 13 16641); ORecOk] /\
+  map non_end_items (stretches outs) =
+    [[(TStart 129, 0); (TElem 16641 (VU 5), 2)]; [(TElem 16641 (VU 6), 9)]; []; [(TElem 16641 (VU 9), 19)]] /\
+  SegTiles C03_seg_sp 0 C03_seg_doc (map non_end_items (stretches outs)) [[134; 129; 255]; []; [65; 1; 137; 7; 7; 7]].
+Proof.
+  cbv zeta. split; [vm_compute; reflexivity|]. split; [vm_compute; reflexivity|]. split; [vm_compute; reflexivity|].
+  split; [vm_compute; reflexivity|].
+  assert (E : map non_end_items (stretches (p_run C03_seg_cfg C03_seg_doc C03_seg_ops)) =
+    [[(TStart 129, 0); (TElem 16641 (VU 5), 2)]; [(TElem 16641 (VU 6), 9)]; []; [(TElem 16641 (VU 9), 19)]]) by (vm_compute; reflexivity).
+  rewrite E. clear E.
+  set (sp := C03_seg_sp).
+  eapply (SegT_cons sp _ _ _ 6 [134; 129; 255; 65; 1; 129; 6; 65; 1; 137; 7; 7; 7; 65; 1; 129; 9] [134; 129; 255]
+            [65; 1; 129; 6; 65; 1; 137; 7; 7; 7; 65; 1; 129; 9]); [|reflexivity|].
+  { eapply (Tiles_cons sp _ _ [129; 149] _); [reflexivity| |].
+    { exists 1%nat, 21, 1%nat, [129; 149], []. vm_compute. repeat split; reflexivity. }
+    eapply (Tiles_cons sp _ _ [65; 1; 129; 5] _); [reflexivity| |].
+    { exists 2%nat, 1, 1%nat, [65; 1; 129], [5]. vm_compute. repeat split; try reflexivity. intros F; discriminate F. }
+    apply Tiles_nil. }
+  eapply (SegT_cons sp _ _ _ 13 [65; 1; 137; 7; 7; 7; 65; 1; 129; 9] [] [65; 1; 137; 7; 7; 7; 65; 1; 129; 9]); [|reflexivity|].
+  { eapply (Tiles_cons sp _ _ [65; 1; 129; 6] _); [reflexivity| |].
+    { exists 2%nat, 1, 1%nat, [65; 1; 129], [6]. vm_compute. repeat split; try reflexivity. intros F; discriminate F. }
+    apply Tiles_nil. }
+  eapply (SegT_cons sp _ _ _ 13 [65; 1; 137; 7; 7; 7; 65; 1; 129; 9] [65; 1; 137; 7; 7; 7] [65; 1; 129; 9]); [apply Tiles_nil|reflexivity|].
+  apply SegT_last. exists 23, []. 
+  eapply (Tiles_cons sp _ _ [65; 1; 129; 9] _); [reflexivity| |].
+  { exists 2%nat, 1, 1%nat, [65; 1; 129], [9]. vm_compute. repeat split; try reflexivity. intros F; discriminate F. }
+  apply Tiles_nil.
+Qed.
+
+(* The discipline [rec_ok] is needed.  Root(129) { Seg(130) { Val = 5 }  Seg(130) { one junk byte, Val = 6 } }: the read that
+   closes the first Seg has already read the header of the second Seg (offsets 8..9) when End Seg is yielded; try_recover, called
+   at that moment, skips the junk byte at offset 10; the waiting Start Seg is yielded after ORecOk, at offset 8, followed by
+   Val at offset 11: inside the second stretch the byte at offset 10 is covered by no item, so the stretches of the OUTCOMES
+   have no segmented tiling (the stretches of C03_run_tiles_segmented_any do: [Root; Seg; Val; Seg] gap [255] [Val]). *)
+Definition C03_cx_sp : spec :=
+  [ {| e_id := 129; e_ty := DMaster; e_path := [] |}; {| e_id := 130; e_ty := DMaster; e_path := [PId 129] |};
+    {| e_id := 16641; e_ty := DUInt; e_path := [PId 129; PId 130] |} ].
+Definition C03_cx_cfg : cfg :=
+  {| c_sp := C03_cx_sp; c_allow_id := false; c_allow_hier := false; c_allow_over := false; c_max := Some 4000000000;
+     c_buffered := []; c_emit_eof := true |}.
+Definition C03_cx_doc : list N := [129; 141; 130; 132; 65; 1; 129; 5; 130; 133; 255; 65; 1; 129; 6].
+Definition C03_cx_ops : list rop := [RNext; RNext; RNext; RNext; RRecover; RNext; RNext; RNext; RNext; RNext].
+
+Example C03_run_tiles_segmented_counterexample :
+  let outs := p_run C03_cx_cfg C03_cx_doc C03_cx_ops in
+  outs = [OItem (TStart 129) 0; OItem (TStart 130) 2; OItem (TElem 16641 (VU 5)) 4; OItem (TEnd 130) 2; ORecOk;
+          OItem (TStart 130) 8; OItem (TElem 16641 (VU 6)) 11; OItem (TEnd 130) 8; OItem (TEnd 129) 0; ONone] /\
+  rec_ok true outs = false /\
+  map non_end_items (stretches outs) =
+    [[(TStart 129, 0); (TStart 130, 2); (TElem 16641 (VU 5), 4)]; [(TStart 130, 8); (TElem 16641 (VU 6), 11)]] /\
+  ~ exists gaps, SegTiles C03_cx_sp 0 C03_cx_doc (map non_end_items (stretches outs)) gaps.
+Proof.
+  cbv zeta. split; [vm_compute; reflexivity|]. split; [vm_compute; reflexivity|]. split; [vm_compute; reflexivity|].
+  assert (E : map non_end_items (stretches (p_run C03_cx_cfg C03_cx_doc C03_cx_ops)) =
+    [[(TStart 129, 0); (TStart 130, 2); (TElem 16641 (VU 5), 4)]; [(TStart 130, 8); (TElem 16641 (VU 6), 11)]]) by (vm_compute; reflexivity).
+  rewrite E. clear E. intros [gaps H].
+  destruct (SegTiles_second _ _ _ _ _ _ H) as [pre [bytes2 [Hb [o [r HT]]]]].
+  destruct (Tiles_two _ _ _ _ _ _ _ _ _ _ HT) as [Ho [seg [rest1 [Hb2 [Hm Ho2]]]]].
+  assert (Hl : length pre = 8%nat) by lia.
+  apply app_skipn in Hb. rewrite Hl in Hb. vm_compute in Hb. subst bytes2.
+  destruct Hm as [idl [size [sl [hdr [payload [Hseg [Hd [Hv [Hh [_ Hp]]]]]]]]]].
+  rewrite <- Hb2 in Hd, Hv. vm_compute in Hd. injection Hd as <-. vm_compute in Hv. injection Hv as <- <-.
+  subst payload. rewrite app_nil_r in Hseg. subst seg. rewrite Hh in Ho2. cbn in Ho2. lia.
+Qed.
